@@ -163,6 +163,11 @@ D = {
  "C18i": ("INT 21h remembers 'input ended' when the buffer is empty after read_line (also after a read error)", "a console line that is not valid UTF-8, then further console reads in the same run"),
  "C19i": ("same change as C13i, judged through C19", "deep-chain refusal, clear(), then a program using the leftover macro name"),
  "C20i": ("the prompt remembers that stdin failed once and is never shown again", "a prompt line that is not valid UTF-8, then further prompts / breakpoints / q"),
+ "C01i": ("INT 21h/0Ah falls through after a read error and stores a count of 0 (submitted for C01 and C02)", "a non-zero count byte in the buffer, then an unreadable console line: filed under C18"),
+ "C03i": ("byte DIV/IDIV store the remainder in AH before the quotient check", "quotient overflow (INT 0): AX is half overwritten"),
+ "C04i": ("a refused `set` (number beyond 16 bits) resets the assembler's data counter", "further data definitions on the same context after the refusal: filed under C19"),
+ "C08i": ("a refused duplicate label overwrites the label table (insert-then-check)", "a piece re-defining a label is refused, later pieces jump to the label: filed under C19"),
+ "C10i": ("`int N` emits its code line before the number is checked", "a refused `int 5`, then further pieces on the same context/output: filed under C19"),
 }
 rows = []
 for d in sorted(glob.glob(os.path.join(ROOT, "seeded", "*"))):
